@@ -9,6 +9,7 @@ package visor
 // specs/crash/CrashRecords.tla; the observed commit sequence of the uncrashed run is checked against specs/crash/Crash.tla.
 
 import (
+	"bytes"
 	"bufio"
 	"encoding/json"
 	"fmt"
@@ -45,7 +46,18 @@ func vcNN(f vcFinal) vcFinal {
 	return f
 }
 
+// a crash INSIDE a commit under the write-prefix model: the file as it was before the commit, grown to its new size, with
+// the first `pages` of the `of` changed data pages written (ascending, as bolt writes them), perhaps half of the next one,
+// and the meta page not written or half written
+type vcTorn struct {
+	Pages int    `json:"pages"`
+	Of    int    `json:"of"`
+	Half  bool   `json:"half"`
+	Meta  string `json:"meta"`
+}
+
 type vcRec struct {
+	Torn      vcTorn   `json:"torn"`
 	Fn        string   `json:"fn"`
 	Plan      []int    `json:"plan"`
 	After     []string `json:"after"`
@@ -78,6 +90,72 @@ func vcCopy(src, dst string) error {
 	defer out.Close()
 	_, err = io.Copy(out, in)
 	return err
+}
+
+const vcPage = 4096
+
+// the images a crash inside the commit that turned file `pre` into file `post` can leave (write-prefix model)
+func vcTornImages(pre, post []byte) (imgs [][]byte, descr []vcTorn) {
+	npages := (len(post) + vcPage - 1) / vcPage
+	page := func(b []byte, i int) []byte {
+		lo, hi := i*vcPage, (i+1)*vcPage
+		if lo >= len(b) {
+			return nil
+		}
+		if hi > len(b) {
+			hi = len(b)
+		}
+		return b[lo:hi]
+	}
+	var data, meta []int
+	for i := 0; i < npages; i++ {
+		if !bytes.Equal(page(pre, i), page(post, i)) {
+			if i < 2 {
+				meta = append(meta, i)
+			} else {
+				data = append(data, i)
+			}
+		}
+	}
+	build := func(nfull int, half bool, tornMeta bool) []byte {
+		size := len(pre)
+		if len(post) > size {
+			size = len(post) // bolt grows the file before it writes
+		}
+		img := make([]byte, size)
+		copy(img, pre)
+		for k, pg := range data {
+			lo := pg * vcPage
+			if k < nfull {
+				copy(img[lo:], page(post, pg))
+			} else if k == nfull && half {
+				copy(img[lo:], page(post, pg)[:len(page(post, pg))/2])
+			}
+		}
+		if tornMeta {
+			for _, pg := range meta {
+				lo := pg * vcPage
+				copy(img[lo:], page(post, pg)[:vcPage/2])
+			}
+		}
+		return img
+	}
+	n := len(data)
+	seen := map[int]bool{}
+	for _, j := range []int{0, 1, n / 2, n} {
+		if j > n || seen[j] {
+			continue
+		}
+		seen[j] = true
+		imgs, descr = append(imgs, build(j, false, false)), append(descr, vcTorn{Pages: j, Of: n, Meta: "old"})
+		if j < n {
+			imgs, descr = append(imgs, build(j, true, false)), append(descr, vcTorn{Pages: j, Of: n, Half: true, Meta: "old"})
+		}
+	}
+	if len(meta) > 0 {
+		imgs, descr = append(imgs, build(n, false, true)), append(descr, vcTorn{Pages: n, Of: n, Meta: "torn"})
+	}
+	return imgs, descr
 }
 
 // runs the node on dbPath: start-up, then the steps not yet reflected in the database; the hook sees every commit
@@ -339,6 +417,35 @@ func TestVerifCrash(t *testing.T) {
 					chk, ms, rs, fin, left := vcRun(t, img2, cfg, steps, j%2 == 0, pub, nil)
 					_ = enc.Encode(vcRec{Fn: "crash", Plan: []int{k, j}, After: []string{after, commits2[j]}, Verify: j%2 == 0, Check: chk, CheckMs: ms, Restart: rs, Final: vcNN(fin), Expected: expected, Commits: commits, StepsLeft: left})
 				}
+			}
+		}
+	}
+	// ---- crashes inside a commit: every commit of the uncrashed run, every image of the write-prefix model
+	emptyImg := filepath.Join(dir, "crash_-1.db")
+	os.Remove(emptyImg)
+	if db, err := OpenDB(emptyImg, false); err == nil {
+		db.Close()
+	} else {
+		t.Fatal(err)
+	}
+	for k := 0; k < len(commits); k++ {
+		pre, err1 := ioutil.ReadFile(filepath.Join(dir, fmt.Sprintf("crash_%d.db", k-1)))
+		post, err2 := ioutil.ReadFile(filepath.Join(dir, fmt.Sprintf("crash_%d.db", k)))
+		if err1 != nil || err2 != nil {
+			t.Fatal(err1, err2)
+		}
+		imgs, descr := vcTornImages(pre, post)
+		for x, img := range imgs {
+			verify := (k+x)%2 == 0
+			path := filepath.Join(dir, fmt.Sprintf("torn_%d_%d.db", k, x))
+			if err := ioutil.WriteFile(path, img, 0600); err != nil {
+				t.Fatal(err)
+			}
+			chk, ms, rs, fin, left := vcRun(t, path, cfg, steps, verify, pub, nil)
+			_ = enc.Encode(vcRec{Fn: "torn", Torn: descr[x], Plan: []int{k}, After: []string{"inside " + commits[k]}, Verify: verify, Check: chk, CheckMs: ms, Restart: rs, Final: vcNN(fin),
+				Expected: expected, Commits: commits, StepsLeft: left})
+			if chk != "timeout-and-not-stoppable" {
+				os.Remove(path)
 			}
 		}
 	}
